@@ -3,9 +3,10 @@ CONSTANTS
   NK = 3
   BatchSet = "repl"
   Callers = {1}
-  Ops = {"Translate","Restart","RApply","RStop","RResume","RCut"}
+  Ops = {"Translate","Restart","RApply","RRecv","RReassign","RStop","RResume","RCut"}
   Depth = 4
   Recheck = TRUE
+  DropInFlight = TRUE
   MaxSeq = 99
   MaxRestart = 99
   Sample = FALSE
